@@ -128,10 +128,15 @@ func cmdCheck(args []string) int {
 			return 2
 		}
 	}
-	deadline := time.Time{}
-	if *budget > 0 {
-		deadline = t0.Add(*budget)
+	// wall-clock budget: when it is used up the remaining paths/jobs are reported INCONCLUSIVE
+	// (never as success); a change to /repo that makes exploration explode cannot hang the check
+	if *budget == 0 {
+		*budget = 25 * time.Minute
+		if *tier == "thorough" {
+			*budget = 80 * time.Minute
+		}
 	}
+	deadline := t0.Add(*budget)
 	if prop.Solver != "" && os.Getenv("QSYM_SOLVER") == "" {
 		if _, err := execOutput(strings.Fields(prop.Solver)[0], "--version"); err == nil {
 			os.Setenv("QSYM_SOLVER", prop.Solver)
@@ -228,6 +233,10 @@ func cmdCheck(args []string) int {
 	for k, r := range results {
 		for _, s := range dedup(r.Inconclusive) {
 			inconc = append(inconc, fmt.Sprintf("%s%v: %s", r.Harness, r.Params, s))
+		}
+		if len(r.Reached) == 0 && len(r.Violations) == 0 && !jobs[k].ExpectSat && len(prop.MinReach) > 0 {
+			// per-job vacuity guard: every path died on an assumption before any Reach label
+			inconc = append(inconc, fmt.Sprintf("%s%v: vacuity: no path of this job reached a label (assumptions unsatisfiable?)", r.Harness, r.Params))
 		}
 		if jobs[k].ExpectSat && !expectSatOK[k] {
 			inconc = append(inconc, fmt.Sprintf("%s%v: false twin was NOT refuted (vacuity guard failed)", r.Harness, r.Params))
